@@ -573,7 +573,9 @@ fn par_instance(tx: mpsc::Sender<Value>, seed: u64, flavor: String, exec: String
         VLOG_ON.store(false, Ordering::SeqCst);
         verif::locks::enable(false);
         let raw = verif::locks::drain();
-        let par = |e: &&verif::locks::LockEvent| e.thread.starts_with("par-") || e.thread.starts_with("tid-");
+        // balance: over the parallel client threads only -- they have been joined; the cache's own workers ("tid-*", checked
+        // for the discipline like the others) may be inside a critical section at this very moment
+        let par = |e: &&verif::locks::LockEvent| e.thread.starts_with("par-");
         let (wants, rels) = (raw.iter().filter(par).filter(|e| e.kind == "want" || e.kind == "got").count(), raw.iter().filter(par).filter(|e| e.kind == "rel").count());
         let _ = tx.send(json!({"ev":"Locks","locks":crate::cache::lock_events_json(raw, true),"wants":wants,"rels":rels}));
         let calls: Vec<Value> = VLOG.lock().drain(..).map(|(p, c, ok)| json!([p, c, ok])).collect();
